@@ -51,7 +51,7 @@ def run(ctx):
                 't given as count (int/float), duration Quantity or absolute Time; n in 0..len incl. 0, len and t+n = len; '
                 'malformed stream: t<0, t+n>len, n<0, Time without start. non-trivial = fractional t or boundary request; '
                 'distinct by (class, len, rate, form, t, n).')
-    ctx.trusted = ['Coq 8.16.1 kernel; vm_compute', 'scipy.fft = the mathematical DFT (validated numerically against an O(N^2) '
+    ctx.trusted = ['translator T6 translate/py_shift2coq.py (decisions and arithmetic of snippet; the two normalisations of t pinned)', 'Coq 8.16.1 kernel; vm_compute', 'scipy.fft = the mathematical DFT (validated numerically against an O(N^2) '
                    'longdouble evaluation on every fractional case)', 'astropy Time/Quantity within stated tolerance']
     ctx.assumptions = ['complex64 phase ramp in time_shift bounds the value accuracy: tolerance 1e-5*max|x| (worst ratio reported)']
     built = ctx.build(['Props/C12.vo'])
